@@ -14,6 +14,18 @@ CHECKS = {
          "Normal return required for every accepted scenario under every explored schedule; deadlock is exact (loop idle, nothing in flight, no timer). One open known finding (incomparable delays).", "3/C05"),
  "C07": ("exploration", "A", "runtime monitoring: causal provenance of steps inside promised max_advance windows",
          "Every step in a promised window must be caused (transitively) by the simulator's own steps at or after the promise.", "3/C07"),
+ "C04": ("exploration", "A", "runtime monitoring: differential oracle over per-simulator (time, inputs) sequences of many runs of one scenario (schedules incl. bounded-exhaustive DFS, start order, lazy/cache/debug, remote processes)",
+         "No model: any difference between two runs of one scenario is a violation. One open known finding (sub-time data path) classified per differing step; flat scenarios cannot reach it and amplify any difference.", "3/C04"),
+ "C06": ("exploration", "C", "runtime monitoring: contract on World.run() (ScenarioError vs. first step, named cycle) against a brute-force cycle enumerator",
+         "All connection multigraphs on 1-2 simulators x 5 group placements exhaustively, 3 simulators exhaustively in the thorough tier, 4-6 sampled.", "5/C06"),
+ "C08": ("exploration", "C", "runtime contracts on the real TieredInterval/TieredTime operators against a functional model, exhaustive over bounded shapes",
+         "Every ordered pair of equal shape (length <= 3, tiers 0..2/3): trichotomy, antisymmetry, agreement of < with the pointwise order for every departure time, transitivity, action law, associativity.", "5/C08"),
+ "C11": ("exploration", "C", "runtime monitoring: decision-table contract on World.connect() plus starved-source runs; group scoping via step-set monitors with path-identified groups",
+         "Exhaustive decision table over attr kinds x connection kinds x initial data x placements; rejected pairs followed by a run that shows no data-flow/wait; sibling-group scenarios under the C02/C01 monitors.", "5/C11"),
+ "C12": ("exploration", "C", "runtime contracts on parse_attrs / world.start() / OutSet operators against a membership model, exhaustive over a small universe",
+         "All descriptions over a 2 (thorough: 3) name universe x any_inputs x 3 types; world.start()+connect() through a meta-mirroring simulator; all operand pairs of the set algebra.", "5/C12"),
+ "C18": ("exploration", "C", "runtime monitoring: counting oracle over recorded World.connect calls of the bulk helpers",
+         "All admissible sizes up to 12x6 (thorough 24x10) x caps x 50 (500) seeds.", "5/C18"),
  "C10": ("exploration", "A", "runtime monitoring: ordering oracle (producer begin vs. consumers' outstanding steps), lazy_stepping=True",
          "At every producer step begin no consumer has an unfinished demanded step of an earlier time.", "3/C10"),
 }
